@@ -68,6 +68,16 @@ CLAIMS = {
              'solver leverage is low; it is the same engine and verdict discipline. The check-then-mark race is a '
              'known finding identified by its schedule family.',
         ref='5 C20', technique='solver-driven schedule enumeration (CrossHair+z3 over a baton thread scheduler) on the real Server'),
+    'C12': dict(
+        text='Compositional: (a) the real Packet.decode on arbitrary bounded symbolic frames and on 100-digit / 10-digit '
+             'runs with a symbolic boundary - every decoded field lies in a domain D and int() is never applied to more '
+             'than 100 characters (z3 validity queries); (b) the real _handle_eio_message of Server/AsyncServer fed '
+             'packets with symbolic fields from D, stray binary frames and malformed text by one offender while two '
+             'bystanders hold rooms, sessions and callbacks: no handler runs for a bystander, nothing about them changes, '
+             'nothing is sent to them, and sentinel traffic afterwards is served exactly as before.',
+        ref='5 C12', engine='xh+bsx',
+        technique='symbolic execution: bsx validity queries on the real decoder + CrossHair exploration of the real '
+                  'dispatch code with symbolic packet fields'),
 }
 
 PENDING = 'check not built yet in this tree (work in progress); no claim is made'
